@@ -12,7 +12,7 @@ def scenarios(ctx, rng):
     cases = []
     n = 36 if ctx.tier == "quick" else 900
     kinds = ["basic", "update_upstream", "update_listen", "traffic_in_flight", "parked_then_half_close", "stop_during_dial", "reset_enables",
-             "populate_replace", "many_connections", "populate_replace_disabled"]
+             "populate_replace", "many_connections", "populate_replace_disabled", "accept_failed"]
     for i in range(n):
         g = i % 6
         b = T.port_base(g)
@@ -113,6 +113,20 @@ def scenarios(ctx, rng):
             add({"op": "dial", "id": "cx", "addr": A1}, ("dial_refused",))
             add(T.api("POST", "/reset"), ("status", 204))
             connect("c1", "s1")
+        elif kind == "accept_failed":
+            # the accept loop has died on a failing accept() (descriptor table full) while connections are established; whatever the API
+            # shows about the proxy afterwards, a request that takes it down still ends those connections and frees the port
+            connect("c1", "s1")
+            add({"op": "emfile", "addr": A1})
+            add({"op": "sleep", "ms": 100})
+            how2 = rng.choice(["disable", "delete", "listen"])
+            add(T.api("POST", "/proxies/p", {"enabled": False}) if how2 == "disable" else
+                (T.api("DELETE", "/proxies/p") if how2 == "delete" else T.api("POST", "/proxies/p", {"listen": A2, "enabled": True})), ("status_ok",))
+            add({"op": "send", "id": "s1", "n": 29})
+            add({"op": "recv", "id": "c1", "up": "s1", "n": 100, "ms": 2000}, ("ended",), ("at_most", 0))
+            add({"op": "recv", "id": "s1", "up": "c1", "n": 1, "ms": 2000}, ("ended",))
+            if how2 == "delete":
+                add({"op": "bindcheck", "port": px}, ("ok",))
         elif kind == "populate_replace":
             connect("c1", "s1")
             add(T.api("POST", "/populate", [{"name": "p", "listen": A1, "upstream": U2}]), ("status", 201))
